@@ -43,6 +43,9 @@ def cases(tier, seed):
             out.append((fam, th, tier, 'integrals'))
         out.append((fam, 0.0, tier, 'history'))
     out.append(('independence', 0.0, tier, 'independence'))
+    for fam in ('clayton', 'gumbel', 'frank'):
+        out.append((fam, 0.0, tier, 'int-theta'))
+    out.append(('frank', 0.0, tier, 'tiny-theta'))
     return out
 
 
@@ -55,8 +58,13 @@ def _layouts(r, f, P, name, sig, case, fam, th):
         r.violation(f'{sig}:{name}:argument-reuse', f'{fam} theta={th}: {name} '
                     f'{"modified its argument" if not np.array_equal(same, P) else "answers differently the second time"} '
                     f'when the same array object is evaluated twice', case=case)
+    keep = f(P.copy())                       # a returned result is a value: later calls must not rewrite it
+    kept = np.array(keep, float)
     same[:] = P[::-1]                        # the same object refilled in place: the answer is a function of the values
     refilled = np.asarray(f(same), float)[::-1]
+    if not np.array_equal(np.asarray(keep, float), kept, equal_nan=True):
+        r.violation(f'{sig}:{name}:result-rewritten-by-later-call', f'{fam} theta={th}: the array returned by {name} changed when '
+                    f'{name} was called again on the same copula', case=case)
     rev = np.asarray(f(P[::-1].copy()), float)[::-1]
     k = -(-1000 // len(P))
     tiled = np.asarray(f(np.tile(P, (k, 1))), float).reshape(k, len(P))
@@ -72,6 +80,74 @@ def _layouts(r, f, P, name, sig, case, fam, th):
                         f'{alone[i]!r} alone', case=case)
             break
     return alone
+
+
+INT_THETAS = {'clayton': (1, 2, 4, 8), 'gumbel': (1, 2, 3, 5), 'frank': (-10, -3, -1, 1, 3, 10)}
+
+
+def _int_theta(r, fam, g, sig, case):
+    """A parameter given as an integer (Python int, numpy int64 - e.g. read from JSON) means the same copula as the float."""
+    P = grid_pairs(g, g)
+    y, v = P[:, 0].copy(), P[:, 1].copy()
+    for th in INT_THETAS[fam]:
+        ref = make_biv(fam, float(th))
+        want = {}
+        with np.errstate(all='ignore'):
+            for meth in ('partial_derivative', 'probability_density', 'log_probability_density', 'cumulative_distribution'):
+                want[meth] = np.asarray(getattr(ref, meth)(P.copy()), float)
+            want['percent_point'] = np.asarray(ref.percent_point(y[::9].copy(), v[::9].copy()), float)
+        for kind, val in (('int', int(th)), ('numpy.int64', np.int64(th))):
+            cop = make_biv(fam, float(th))
+            cop.theta = val
+            r.state((fam, th, kind))
+            for meth, w in want.items():
+                r.tr()
+                r.ev(len(w))
+                try:
+                    with np.errstate(all='ignore'):
+                        got = np.asarray(cop.percent_point(y[::9].copy(), v[::9].copy()) if meth == 'percent_point'
+                                         else getattr(cop, meth)(P.copy()), float)
+                except Exception as e:
+                    r.violation(f'{sig}:int-theta:{meth}:raises', f'{fam} theta={val!r} ({kind}): {meth} raised '
+                                f'{type(e).__name__}: {e}', case=case)
+                    continue
+                okm = (np.abs(got - w) <= 1e-12 * np.maximum(1, np.abs(w))) | (~np.isfinite(got) & ~np.isfinite(w))
+                if got.shape != w.shape or not okm.all():
+                    i = int(np.nonzero(~okm)[0][0]) if got.shape == w.shape else 0
+                    r.violation(f'{sig}:int-theta:{meth}', f'{fam}: {meth} with theta={val!r} given as {kind} differs from '
+                                f'theta={float(th)!r}: {got.ravel()[i]!r} vs {w.ravel()[i]!r} at point #{i}', case=case)
+    r.nontriv(len(INT_THETAS[fam]) * 2)
+    r.hit('int-theta')
+    r['sample'] = {'family': fam, 'int_thetas': list(INT_THETAS[fam])}
+    return r
+
+
+def _tiny_theta(r, g, sig, case):
+    """Frank with 0 < |theta| << 1 is within |theta| of the independence copula (the closed form loses ~1e-8 there, so the
+    band is 1e-6; thetas below 1e-8 are not explored because the documented formula itself cancels)."""
+    P = grid_pairs(g, g)
+    u, v = P[:, 0], P[:, 1]
+    for th in (1e-5, -1e-5, 1e-6, -1e-6, 1e-7, -1e-7, 3e-8, -3e-8, 1e-8, -1e-8):
+        cop = make_biv('frank', th, tau=th / 9)
+        band = 1e-6 + 6 * abs(th)
+        with np.errstate(all='ignore'):
+            got = {'probability_density': (np.asarray(cop.probability_density(P.copy()), float), np.ones(len(P))),
+                   'partial_derivative': (np.asarray(cop.partial_derivative(P.copy()), float), u),
+                   'cumulative_distribution': (np.asarray(cop.cumulative_distribution(P.copy()), float), u * v),
+                   'log_probability_density': (np.asarray(cop.log_probability_density(P.copy()), float), np.zeros(len(P))),
+                   'percent_point': (np.asarray(cop.percent_point(u[::9].copy(), v[::9].copy()), float), u[::9])}
+        r.tr(5)
+        r.state(('frank-tiny', th))
+        for meth, (a, b) in got.items():
+            r.ev(len(a))
+            if a.shape != b.shape or not np.all(np.abs(a - b) <= band):
+                i = int(np.argmax(np.abs(a - b))) if a.shape == b.shape else 0
+                r.violation(f'{sig}:tiny-theta:{meth}', f'frank theta={th!r}: {meth} = {a.ravel()[i]!r} at grid point #{i}, the '
+                            f'independence limit is {np.ravel(b)[i]!r} (band {band:.1e})', case=case)
+    r.nontriv(10)
+    r.hit('tiny-theta')
+    r['sample'] = {'family': 'frank', 'thetas': [1e-5, 1e-6, 1e-7, 3e-8, 1e-8]}
+    return r
 
 
 def _independence(r, g, sig, case):
@@ -100,9 +176,13 @@ def _independence(r, g, sig, case):
         # the documented shortcuts pdf / cdf / ppf are the same functions
         for short, long_, args in (('pdf', 'probability_density', (P.copy(),)), ('cdf', 'cumulative_distribution', (P.copy(),)),
                                    ('ppf', 'percent_point', (P[:, 0].copy(), P[:, 1].copy()))):
-            a1 = np.asarray(getattr(cop, short)(*[x.copy() for x in args]), float)
-            a2 = np.asarray(getattr(cop, long_)(*[x.copy() for x in args]), float)
             r.tr(2)
+            try:
+                a1 = np.asarray(getattr(cop, short)(*[x.copy() for x in args]), float)
+                a2 = np.asarray(getattr(cop, long_)(*[x.copy() for x in args]), float)
+            except Exception as e:
+                r.violation(f'{sig}:shortcut:{short}:raises', f'{how}: {short} / {long_} raised {type(e).__name__}: {e}', case=case)
+                continue
             if not np.array_equal(a1, a2, equal_nan=True):
                 r.violation(f'{sig}:shortcut:{short}', f'{how}: {short} differs from {long_}', case=case)
     r.outcome('independence')
@@ -119,6 +199,10 @@ def run_case(case):
     g = list(A.tier_grid(tier))
     if part == 'independence':
         return _independence(r, g, sig, case)
+    if part == 'int-theta':
+        return _int_theta(r, fam, g, sig, case)
+    if part == 'tiny-theta':
+        return _tiny_theta(r, g, sig, case)
     if part != 'history':
         cop = make_biv(fam, th)
         ref = Ref(fam, th)
@@ -268,4 +352,6 @@ def finish(agg, tier):
         engine.require(agg['hits'].get(f'family:{fam}', 0) >= 6, f'family {fam} under-explored')
     engine.require(agg['hits'].get('integral-cases', 0) >= 20, 'integral cases missing')
     engine.require(agg['hits'].get('history-cases', 0) == 3, 'history cases missing')
+    for k_ in ('int-theta', 'tiny-theta'):
+        engine.require(agg['hits'].get(k_, 0) >= 1 or any(k_ in v['sig'] for v in agg['viol']), f'{k_} cases missing')
     engine.require(agg['hits'].get('independence', 0) == 1 or any('independence' in v['sig'] for v in agg['viol']), 'independence case missing')
